@@ -8,9 +8,10 @@ import "fmt"
 
 type tgen struct {
 	*wgen
-	project bool // delete / permute / add struct fields
-	wide    bool // only widths that always fit (no range errors), for projection comparisons
-	nstruct int
+	project  bool // delete / permute / add struct fields
+	wide     bool // only widths that always fit (no range errors), for projection comparisons
+	covering bool // write direction: every schema field has a Go field
+	nstruct  int
 }
 
 func tInt(w int) sx { return T("int", I(int64(w))) }
@@ -27,6 +28,12 @@ func (g *tgen) target(s *asch) (sx, bool) {
 			return T("ptr", t)
 		}
 		return t
+	}
+	if s.timeTarget {
+		if s.kind == "string" && r.Intn(3) == 0 {
+			return T("nullT", A("time")), true
+		}
+		return ptr(A("time")), true
 	}
 	switch s.kind {
 	case "null":
